@@ -918,7 +918,7 @@ func main() {
 	dbroot := filepath.Join(run.Out, "dbs")
 	os.MkdirAll(dbroot, 0o755)
 	flushed, suppressed := 0, 0
-	for id := 1; id <= run.N(90, 900); id++ {
+	for id := 1; id <= run.N(90, 600); id++ {
 		var r *runner
 		if id <= 3 {
 			r = corpusCase(st, filepath.Join(dbroot, fmt.Sprintf("db%d", id)), id-1)
